@@ -14,6 +14,8 @@ def main():
     for tn, a in agg.items():
         bad = [(o["name"], o["result"]) for o in a["obligations"] if o["result"] != "unsat"]
         print(tn, "paths", a["paths"], a["status"], "queries", a["queries"], "non-unsat", bad[:6], "truncated", a["truncated"])
+        for o in sorted(a["obligations"], key=lambda o: -o.get("time", 0))[:3]:
+            print("    slowest:", o["name"], round(o.get("time", 0), 1), "s", o["result"], "prefix", o.get("prefix"))
         for o in [o for o in a["obligations"] if o["result"] != "unsat"][:3]:
             print("    info:", o["name"], str(o.get("info"))[:600], "MODEL", str(o.get("model"))[:900])
         for e in a["errors"][:3]:
